@@ -405,6 +405,124 @@ fn explore(ctx: &Ctx, rep: &mut Report, key_prefix: &'static str, label: &str, a
     rep.note(format!("{}: all histories over {} ops to depth {} from start '{}'{}", label, n, depth, start.name(), if stopped { " (INCOMPLETE: wall cap)" } else { "" }));
 }
 
+/// Periodic unrollings: every cycle of 1..=max_len ops over the alphabet, repeated `reps` times (an op
+/// that is not enabled when its turn comes is skipped), with the full oracle after every repetition and
+/// the usual backfill / drain / drop / leak accounting at the end.  Reaches what a depth bound cannot:
+/// anything that needs the N-th occurrence of an event (arena size classes, container growth, counters,
+/// thresholds, wrap-arounds of small indices).  The finder's verdict is re-derived by `run_history` on the
+/// ops actually applied, so that the replay artefact is an ordinary history.
+fn explore_cycles(ctx: &Ctx, rep: &mut Report, key_prefix: &'static str, label: &str, alphabet: Vec<Op>, start: Start, prefix: Vec<Op>, max_len: usize, reps: usize) {
+    let n = alphabet.len();
+    let mut unit = 0usize;
+    let mut cycles = 0u64;
+    let mut stopped = false;
+    'outer: for len in 1..=max_len {
+        let total = n.pow(len as u32);
+        for c in 0..total {
+            let mine = ctx.owns(unit);
+            unit += 1;
+            if !mine {
+                continue;
+            }
+            if ctx.out_of_time() {
+                stopped = true;
+                rep.not_exhaustive = true;
+                rep.note(format!("wall cap hit while exploring [{}]: the run is NOT exhaustive", label));
+                break 'outer;
+            }
+            let mut x = c;
+            let mut cycle: Vec<Op> = Vec::with_capacity(len);
+            for _ in 0..len {
+                cycle.push(alphabet[x % n]);
+                x /= n;
+            }
+            // a cycle that is a repetition of a shorter one was already unrolled
+            if (1..len).any(|d| len % d == 0 && (0..len).all(|i| cycle[i] == cycle[i % d])) {
+                continue;
+            }
+            cycles += 1;
+            run_cycle(rep, key_prefix, label, start, &prefix, &cycle, reps);
+        }
+    }
+    rep.count("cycles_unrolled", cycles);
+    rep.note(format!("{}: every cycle of 1..={} ops over {} ops, unrolled {} times from start '{}' (disabled ops skipped), oracle after every repetition{}", label, max_len, n, reps, start.name(), if stopped { " (INCOMPLETE: wall cap)" } else { "" }));
+}
+
+fn run_cycle(rep: &mut Report, key_prefix: &'static str, label: &str, start: Start, prefix: &[Op], cycle: &[Op], reps: usize) {
+    let mut applied: Vec<Op> = Vec::new();
+    let mut meta = (0u64, 0u64, false);
+    let mut oracle_runs = 0u64;
+    let body = |applied: &mut Vec<Op>, meta: &mut (u64, u64, bool), oracle_runs: &mut u64| -> Result<(), String> {
+        let mut ex = Exec::new(start);
+        for op in prefix {
+            if !ex.enabled(*op) {
+                return Err(format!("prefix op {} is not enabled (harness bug)", op.name()));
+            }
+            applied.push(*op);
+            set_breadcrumb(format!("start: {}\nhistory: {}\n", start.name(), render(applied)).as_bytes());
+            ex.apply(*op).map_err(|e| format!("step {} ({}): {}", applied.len(), op.name(), e))?;
+        }
+        for _ in 0..reps {
+            for op in cycle {
+                if !ex.enabled(*op) {
+                    continue;
+                }
+                applied.push(*op);
+                set_breadcrumb(format!("start: {}\nhistory: {}\n", start.name(), render(applied)).as_bytes());
+                ex.apply(*op).map_err(|e| format!("step {} ({}): {}", applied.len(), op.name(), e))?;
+            }
+            *oracle_runs += 1;
+            ex.oracle().map_err(|e| format!("after the last step: {}", e))?;
+        }
+        *meta = (ex.model_hash(), ex.outcome_hash(), ex.ever_consumed || ex.ever_hole || ex.ever_two_sides);
+        ex.finish(applied.len() % 2 == 1).map_err(|e| format!("at the end: {}", e))
+    };
+    let r = match catch(|| body(&mut applied, &mut meta, &mut oracle_runs)) {
+        Ok(r) => r,
+        Err(p) => Err(format!("panic: {}", p)),
+    };
+    owning_iovec::verif::drain_quarantine();
+    rep.evaluations += oracle_runs.max(1);
+    rep.transitions += applied.len() as u64;
+    rep.count_max("max_history_ops", applied.len() as u64);
+    match r {
+        Ok(()) => {
+            rep.state(meta.0);
+            rep.outcome(meta.1);
+            if meta.2 {
+                rep.nontrivial += 1;
+            }
+            if rep.want_sample() {
+                rep.sample(format!("[{} / {}] cycle [{}] x {} = {} ops", label, start.name(), render(cycle), reps, applied.len()));
+            }
+        }
+        Err(e) if !relevant(&e) => {
+            rep.count("executions_failing_only_a_sibling_oracle", 1);
+        }
+        Err(e) => {
+            // the verdict is that of the plain history of the ops applied so far; it must fail, twice, identically
+            let first = run_history(start, &applied, false);
+            let again = run_history(start, &applied, false);
+            let Err(desc) = first.clone() else {
+                machinery_failure(&format!("cycle finder failure did not reproduce as a plain history: [{}] finder: {}", render(&applied), e));
+            };
+            if again.as_ref().err() != Some(&desc) {
+                machinery_failure(&format!("violation did not reproduce identically: [{}] first: {} / replay: {:?}", render(&applied), desc, again));
+            }
+            if !relevant(&desc) {
+                rep.count("executions_failing_only_a_sibling_oracle", 1);
+                return;
+            }
+            let hist = render(&applied);
+            rep.violation(Violation {
+                key: format!("{}:{}:{}", key_prefix, start.name(), hist.replace(' ', "")),
+                summary: format!("OwningIovec [{}] cycle [{}] unrolled, {} ops: {}: {}", start.name(), render(cycle), applied.len(), hist, desc),
+                replay_text: format!("start: {}\nhistory: {}\nobserved: {}\n", start.name(), hist, desc),
+            });
+        }
+    }
+}
+
 /// C20: prefix . clone|take . suffix
 fn explore_c20(ctx: &Ctx, rep: &mut Report, prefix_depth: usize, suffix_depth: usize) {
     // Enumerate prefixes (all sequences over the prefix alphabet to prefix_depth), then the
@@ -502,6 +620,10 @@ fn run(ctx: &Ctx) -> Report {
                 explore(ctx, &mut rep, "C03", &format!("C03 backpatch alphabet B after seed {}", name), alphabet_b(), Start::Fresh, seed, t.pick(4, 5));
             }
             explore(ctx, &mut rep, "C03", "C03 alphabet F (chunk end)", alphabet_f(), Start::Fresh, vec![], t.pick(6, 7));
+            explore_cycles(ctx, &mut rep, "C03", "C03 cycles, alphabet A", alphabet_a(), Start::Fresh, vec![], t.pick(3, 3), t.pick(16, 40));
+            explore_cycles(ctx, &mut rep, "C03", "C03 cycles, alphabet B", alphabet_b(), Start::Fresh, vec![], t.pick(3, 4), t.pick(16, 40));
+            explore_cycles(ctx, &mut rep, "C03", "C03 cycles, reduced alphabet", alphabet_a_small(), Start::Fresh, vec![], t.pick(3, 4), t.pick(16, 40));
+            explore_cycles(ctx, &mut rep, "C03", "C03 cycles, alphabet F", alphabet_f(), Start::Fresh, vec![], t.pick(3, 4), t.pick(16, 40));
         }
         "C04" => {
             // the 16 single-pipe ops to the full depth; with the clone-while-pending op one level shallower
@@ -515,6 +637,8 @@ fn run(ctx: &Ctx) -> Report {
                 explore(ctx, &mut rep, "C04", &format!("C04 alphabet B after seed {}", name), alphabet_b(), Start::Fresh, seed, t.pick(4, 5));
             }
             explore(ctx, &mut rep, "C04", "C04 alphabet F (chunk end, rejected backfills)", alphabet_f(), Start::Fresh, vec![], t.pick(6, 7));
+            explore_cycles(ctx, &mut rep, "C04", "C04 cycles, alphabet B", alphabet_b(), Start::Fresh, vec![], t.pick(3, 4), t.pick(16, 40));
+            explore_cycles(ctx, &mut rep, "C04", "C04 cycles, alphabet F", alphabet_f(), Start::Fresh, vec![], t.pick(3, 4), t.pick(16, 40));
         }
         "C05" => {
             explore(ctx, &mut rep, "C05", "C05 alphabet C", alphabet_c(false), Start::Fresh, vec![], t.pick(5, 6));
@@ -524,6 +648,8 @@ fn run(ctx: &Ctx) -> Report {
             for (name, seed) in seeds() {
                 explore(ctx, &mut rep, "C05", &format!("C05 alphabet C after seed {}", name), alphabet_c(false), Start::Fresh, seed, t.pick(4, 5));
             }
+            explore_cycles(ctx, &mut rep, "C05", "C05 cycles, alphabet C", alphabet_c(false), Start::Fresh, vec![], t.pick(3, 3), t.pick(16, 40));
+            explore_cycles(ctx, &mut rep, "C05", "C05 cycles, alphabet E extended", alphabet_e_ext(), Start::Fresh, vec![], t.pick(3, 4), t.pick(16, 40));
         }
         "C10" => {
             explore(ctx, &mut rep, "C10", "C10 leak clause, alphabet C", alphabet_c(false), Start::Fresh, vec![], t.pick(4, 6));
@@ -532,8 +658,14 @@ fn run(ctx: &Ctx) -> Report {
             for (name, seed) in seeds() {
                 explore(ctx, &mut rep, "C10", &format!("C10 leak clause after seed {}", name), alphabet_c(false), Start::Fresh, seed, t.pick(3, 5));
             }
+            explore_cycles(ctx, &mut rep, "C10", "C10 leak clause, cycles, alphabet C", alphabet_c(false), Start::Fresh, vec![], t.pick(3, 3), t.pick(16, 40));
+            explore_cycles(ctx, &mut rep, "C10", "C10 leak clause, cycles, alphabet E extended", alphabet_e_ext(), Start::Fresh, vec![], t.pick(3, 4), t.pick(16, 40));
         }
-        "C20" => explore_c20(ctx, &mut rep, t.pick(3, 3), t.pick(3, 5)),
+        "C20" => {
+            explore_c20(ctx, &mut rep, t.pick(3, 3), t.pick(3, 5));
+            explore_cycles(ctx, &mut rep, "C20", "C20 cycles after push_copy(3), clone", alphabet_d_suffix(), Start::Fresh, vec![a(K::PushCopy(3)), a(K::CloneA)], t.pick(3, 3), t.pick(16, 40));
+            explore_cycles(ctx, &mut rep, "C20", "C20 cycles after push_anchored(300), push(65), clone", alphabet_d_suffix(), Start::Fresh, vec![a(K::PushAnchored(300)), a(K::Push(65)), a(K::CloneA)], t.pick(3, 3), t.pick(16, 40));
+        }
         other => machinery_failure(&format!("iovec_mc does not serve {}", other)),
     }
     rep
